@@ -451,6 +451,63 @@ func runDefxFileSets() defxResult {
 			res.add("duplicate-name-accepted", "a pipeline name declared in two files (with identical bodies) is accepted ("+n+")")
 		}
 	}
+	// size ladder: "loads to exactly what it says" whatever the size of a file. A pipeline sits at the very end of a file
+	// of 4 KiB ... 8 MiB (comment padding, so the expected definitions stay the two of the one-file case), each size just
+	// below and just above the power of two; an edit behind the padding must be seen by Equals; a duplicate name behind
+	// the padding must be refused.
+	for _, kb := range []int{4, 64, 1024, 4096, 8192} {
+		for _, off := range []int{-1, 1} {
+			n := fmt.Sprintf("size-%dKiB%+d", kb, off)
+			dir := filepath.Join(base, n)
+			head := "pipelines:\n" + gA.yaml("alpha")
+			line := "# " + strings.Repeat("x", 77) + "\n"
+			target := kb*1024 + off*40
+			var sb strings.Builder
+			sb.WriteString(head)
+			for sb.Len()+len(line) < target {
+				sb.WriteString(line)
+			}
+			for sb.Len() < target {
+				sb.WriteString("#\n")
+			}
+			padded := sb.String()
+			writeFile(dir, "pipelines.yml", padded+gB.yaml("beta"))
+			got, err := load(dir)
+			res.Cases++
+			res.Distinct++
+			if err != nil {
+				res.add("fileset-rejected:size", "a valid file ("+n+") is rejected: "+err.Error())
+				continue
+			}
+			if !refEqual(reflect.ValueOf(strip(got)), reflect.ValueOf(strip(one))) {
+				res.add("fileset-size-dependent", fmt.Sprintf("a file of %d bytes (%s) with a pipeline at its end loads to %d pipelines, not to the two it declares", len(padded)+len(gB.yaml("beta")), n, len(got.Pipelines)))
+				continue
+			}
+			// the same file with the last pipeline edited
+			dir2 := filepath.Join(base, n+"-edited")
+			writeFile(dir2, "pipelines.yml", padded+gA.yaml("beta"))
+			got2, err2 := load(dir2)
+			res.Cases++
+			if err2 != nil {
+				res.add("fileset-rejected:size", "a valid file ("+n+"-edited) is rejected: "+err2.Error())
+			} else {
+				g1, g2 := strip(got), strip(got2)
+				a, b := definition.PipelinesDef{Pipelines: g1}, definition.PipelinesDef{Pipelines: g2}
+				if a.Equals(b) || b.Equals(a) {
+					res.add("equals-ignores-edit-behind-padding", "an edit to the last pipeline of a large file ("+n+") compares equal")
+				}
+			}
+			// a duplicate of alpha in a second file, declared behind the padding
+			dir3 := filepath.Join(base, n+"-dup")
+			writeFile(dir3, "a/pipelines.yml", "pipelines:\n"+gB.yaml("beta"))
+			writeFile(dir3, "b/pipelines.yml", padded+gB.yaml("beta"))
+			_, err3 := load(dir3)
+			res.Cases++
+			if err3 == nil {
+				res.add("duplicate-name-accepted", "a pipeline name declared in two files is accepted when the second declaration sits at the end of a large file ("+n+")")
+			}
+		}
+	}
 	// duplicate inside one file is a YAML-level matter (later key wins or error): not asserted
 	res.Samples = append(res.Samples, "file sets: one file, two files (both orders), nested directories (both orders), duplicate names (both orders)")
 	return res
